@@ -672,6 +672,15 @@ impl<'b> InnerBucket<'b> {
         Ok(self.buckets.get(&name).unwrap().clone())
     }
 
+    // Marks this bucket and every open bucket below it as deleted: their pages are freed
+    // together with this bucket's, so handles to them must not be used anymore either.
+    fn mark_deleted(&mut self) {
+        self.deleted = true;
+        for child in self.buckets.values() {
+            child.borrow_mut().mark_deleted();
+        }
+    }
+
     pub(crate) fn delete_bucket<T: ToBytes<'b>>(
         &mut self,
         name: T,
@@ -684,8 +693,9 @@ impl<'b> InnerBucket<'b> {
         // remove the bucket from the map so we won't have a reference to it anymore
         let bucket = self.buckets.remove(&name).unwrap();
         let mut b = bucket.borrow_mut();
-        // Mark it as deleted in case there is still a Bucket or cursor with a reference to this bucket.
-        b.deleted = true;
+        // Mark it (and every open bucket nested in it) as deleted in case there is still a Bucket
+        // or cursor with a reference to one of them.
+        b.mark_deleted();
         // check that the bucket wasn't just created and never comitted
         let mut remaining_pages = Vec::new();
         if b.meta.root_page != 0 {
